@@ -354,6 +354,37 @@ pub fn worker(w: &mut Worker) {
             mk(None, Some("z"), Some("cmd"), &["é", "${x}"], q),
         ]
     };
+    // Phase D: a documented line parses back to the same instruction whatever was parsed before it on
+    // the same thread - in particular after a text that was rejected
+    for rejected in ["cmd \"abc", "cmd a\\", "\"cmd\" a", "!", "x = c\\md", "cmd \"a\" \"b"] {
+        for (text, exp) in &line_pool {
+            if !w.take() {
+                continue;
+            }
+            let cj = json!({"kind": "after-rejected", "rejected": rejected, "text": text});
+            w.begin(|| cj.clone());
+            let first = guarded(|| parser::parse_text(rejected));
+            let second = guarded(|| parser::parse_text(text));
+            let verdict = match (first, second) {
+                (Err(p), _) | (_, Err(p)) => Err(("panic".to_string(), format!("parse_text panicked: {}", p))),
+                (Ok(Ok(_)), _) => Err(("harness".to_string(), format!("{:?} was expected to be rejected", rejected))),
+                (Ok(Err(_)), Ok(Err(e))) => Err((format!("after-rejected:rejected:{}", err_kind(&e)), format!("after the rejected text {:?} the documented line {:?} is rejected: {}", rejected, text, e))),
+                (Ok(Err(_)), Ok(Ok(v))) => {
+                    let n = text.lines().count().max(if text.is_empty() { 0 } else { 1 });
+                    if v.len() != n || (n == 1 && plain(&v[0]) != *exp) {
+                        Err(("after-rejected:differs".to_string(), format!("after the rejected text {:?} the line {:?} parses to {:?}", rejected, text, v.iter().map(|i| pi_json(&plain(i))).collect::<Vec<_>>())))
+                    } else {
+                        Ok(())
+                    }
+                }
+            };
+            match verdict {
+                Ok(()) => w.pass(true, hash64(&("after-rejected", rejected.len()))),
+                Err((sig, what)) => w.fail(&sig, &what, cj),
+            }
+        }
+    }
+
     let nmax = tier.pick(3usize, 4usize);
     let idxs: Vec<usize> = (0..line_pool.len()).collect();
     for seq in Strings::new(&idxs[..], 1, nmax) {
@@ -409,6 +440,10 @@ pub fn worker(w: &mut Worker) {
 
 pub fn replay(case: &Value) -> Result<String, String> {
     let text = case["text"].as_str().ok_or("no text")?.to_string();
+    if let Some(rejected) = case["rejected"].as_str() {
+        // the same thread parses the rejected text first
+        let _ = guarded(|| parser::parse_text(rejected));
+    }
     let r = guarded(|| parser::parse_text(&text));
     Ok(match r {
         Err(p) => format!("panic: {}", p),
@@ -421,7 +456,7 @@ pub fn crash_sig(_case: &Value, kind: &str) -> String {
     kind.to_string()
 }
 
-pub const RULE: &str = "enumeration (no duplicates by construction): A) every instruction shape (label x output x command, 64, names with dots, '::', '-', '_', digits and non-ASCII letters) x every rendering style (quote-when-optional, 1|3 separator spaces, 3 leads, 6 trails incl. comments, 4 '=' spacings) x 17 argument lists (up to 8 arguments); B) every argument string up to the length bound over the 16-character alphabet {a n SP \" \\ # = : $ { % TAB LF CR NBSP e-acute}; a TAB inside an argument is written both as \\t and raw, as 1, 2 and 3 arguments, and (strings up to length 3, thorough 4) as the first, middle or last of 4, 6 and 9 arguments, x 3 shapes x 16 styles; C) every script of up to n lines from a pool of 12 lines x LF/CRLF x final line break. Oracle: parse_text(render(i)) == i. A case is non-trivial when a label or output is present or an argument needs quoting or escaping; states = distinct outcome classes (shape, argument count, character classes per argument), transitions = parse_text calls";
+pub const RULE: &str = "enumeration (no duplicates by construction): A) every instruction shape (label x output x command, 64, names with dots, '::', '-', '_', digits and non-ASCII letters) x every rendering style (quote-when-optional, 1|3 separator spaces, 3 leads, 6 trails incl. comments, 4 '=' spacings) x 17 argument lists (up to 8 arguments); B) every argument string up to the length bound over the 16-character alphabet {a n SP \" \\ # = : $ { % TAB LF CR NBSP e-acute}; a TAB inside an argument is written both as \\t and raw, as 1, 2 and 3 arguments, and (strings up to length 3, thorough 4) as the first, middle or last of 4, 6 and 9 arguments, x 3 shapes x 16 styles; D) every line of that pool parsed right after each of six rejected texts on the same thread (what a failed parse leaves behind must not reach the next one); C) every script of up to n lines from a pool of 12 lines x LF/CRLF x final line break. Oracle: parse_text(render(i)) == i. A case is non-trivial when a label or output is present or an argument needs quoting or escaping; states = distinct outcome classes (shape, argument count, character classes per argument), transitions = parse_text calls";
 pub const ASSUMPTIONS: &[&str] = &["characters outside the alphabet behave like 'a' or 'e-acute' (the scanner has no other special characters)", "names are restricted to the listed labels/outputs/commands"];
 pub const EXHAUSTIVE: bool = true;
 pub const WALL_CAP_S: (u64, u64) = (50, 1500);
